@@ -182,6 +182,10 @@ Verdict(r) ==
     [] r.op \in {"range_len", "range_bool", "range_list", "range_index", "range_in", "range_slice"} -> VRange(r)
     [] r.op = "enumerate" -> VEnumerate(r)
     [] r.op = "repeat" -> VRepeat(r)
+    \* representation independence: a pair (E(n reached through big intermediate values), E(the literal n)) of one
+    \* expression context E must have identical components, and the first component of the value list is n itself
+    [] r.op = "route" -> Req(r.res, LAMBDA v : /\ v.t = "tuple" /\ Len(v.v) = 2 /\ v.v[1] = v.v[2]
+                                               /\ v.v[1].t = "list" /\ Len(v.v[1].v) >= 1 /\ VIsInt(v.v[1].v[1], r.x))
 
 \* K strided chains over the records, entered from a dummy state i = 0 (initial states are
 \* evaluated on TLC's small main-thread stack; the records are judged by the workers)
